@@ -95,3 +95,47 @@ pub mod encryption {
 pub mod cloud {
     pub use crate::server::verif_cloud::{MemStore, VerifCloudServer};
 }
+
+/// Named failpoints between the internal steps of a server backend.  A harness arms one name; the
+/// n-th time execution passes that point it returns an error (as if the process had stopped or the
+/// step had failed there).  Thread-local, off unless armed.
+pub mod failpoint {
+    use std::cell::RefCell;
+
+    thread_local! {
+        static ARMED: RefCell<Option<(String, u32)>> = const { RefCell::new(None) };
+    }
+
+    /// Arm `name`: the `nth` (1-based) pass through it fails; the failpoint disarms itself then.
+    pub fn arm(name: &str, nth: u32) {
+        ARMED.with(|a| *a.borrow_mut() = Some((name.to_string(), nth.max(1))));
+    }
+
+    /// Disarm whatever is armed.
+    pub fn disarm() {
+        ARMED.with(|a| *a.borrow_mut() = None);
+    }
+
+    /// Is a failpoint still armed (i.e. has it not fired yet)?
+    pub fn is_armed() -> bool {
+        ARMED.with(|a| a.borrow().is_some())
+    }
+
+    pub(crate) fn hit(name: &str) -> crate::errors::Result<()> {
+        ARMED.with(|a| {
+            let mut a = a.borrow_mut();
+            if let Some((n, left)) = a.as_mut() {
+                if n == name {
+                    *left -= 1;
+                    if *left == 0 {
+                        *a = None;
+                        return Err(crate::errors::Error::Server(format!(
+                            "verif failpoint {name}"
+                        )));
+                    }
+                }
+            }
+            Ok(())
+        })
+    }
+}
